@@ -1,2 +1,278 @@
-(* placeholder until the C06 theorems are in place *)
-From SDB Require Import Model.SqlRef.
+(** C06 — every supported single-table statement returns the reference answer,
+    whichever access path the optimizer picks.  Statements only; every proof is
+    [exact <lemma>] (Proofs/QueryProofs.v).
+
+    Model: Model/Query.v (Compare*, Range, findBestScan's conjunct walk, the
+    candidate plans and their execution).  Reference: Model/SqlRef.v ([sel]).
+    The index range scan is taken to return the entries with lo <= key <= hi in
+    the reference order [vcmp]: that rests on C18 (int_order, float_order,
+    str_order: the encoded keys order like the values) and C17 (the container).
+
+    Three statements are FALSE for the faithful model and are kept as
+    [Definition ... : Prop] with a [_refuted] witness and a [_partial] theorem:
+    [compare_matches_reference], [range_superset], [scan_plan_equiv]. *)
+From Coq Require Import List NArith ZArith Bool Permutation.
+From SDB Require Import Base.Bytes Model.Codec Model.SqlRef Model.Query Proofs.QueryProofs.
+Import ListNotations.
+
+(** * Value.Compare* against the reference order *)
+
+(** Full statement (false): on every stored value and non-NULL literal of the
+    same type the engine's comparison is the reference comparison. *)
+Definition compare_matches_reference : Prop :=
+  forall ty o v r, val_ok ty v -> val_ok ty r -> r <> VNull -> cv_cmp o v r = eval_cmp o v r.
+
+Theorem compare_matches_reference_refuted : ~ compare_matches_reference.
+Proof. exact compare_matches_reference_refuted_lemma. Qed.
+Print Assumptions compare_matches_reference_refuted.
+
+(** Exact characterisation: [=] and [<>] are always right; [<], [<=], [>], [>=]
+    are right exactly outside [cv_bad] (one operand is a sentinel of the type and
+    the other lies beyond it). *)
+Theorem compare_matches_reference_partial : forall ty o v r,
+  val_ok ty v -> val_ok ty r -> r <> VNull ->
+  (cv_cmp o v r = eval_cmp o v r <-> ordered o = false \/ cv_bad v r = false).
+Proof. exact compare_matches_reference_partial_lemma. Qed.
+Print Assumptions compare_matches_reference_partial.
+
+(** Integers: MaxInt32 / MinInt32 are the true extremes, nothing goes wrong. *)
+Theorem compare_matches_reference_int : forall o v r,
+  val_ok TInt v -> val_ok TInt r -> r <> VNull -> cv_cmp o v r = eval_cmp o v r.
+Proof. exact compare_matches_reference_int_lemma. Qed.
+Print Assumptions compare_matches_reference_int.
+
+(** Any type: a wrong answer needs an operand equal to a sentinel. *)
+Theorem compare_wrong_needs_sentinel : forall v r,
+  cv_is_inf_max v = false -> cv_is_inf_min v = false ->
+  cv_is_inf_max r = false -> cv_is_inf_min r = false -> cv_bad v r = false.
+Proof. exact bad_needs_sentinel. Qed.
+Print Assumptions compare_wrong_needs_sentinel.
+
+(** Floats: +Inf < MaxFloat32 is true in the engine. *)
+Theorem compare_float_inf_refuted :
+  val_ok TFloat (VFloat 2139095040%N) /\ val_ok TFloat (VFloat max_f32) /\
+  cv_cmp OLt (VFloat 2139095040%N) (VFloat max_f32) = true /\
+  eval_cmp OLt (VFloat 2139095040%N) (VFloat max_f32) = false.
+Proof. exact compare_float_inf_refuted_lemma. Qed.
+Print Assumptions compare_float_inf_refuted.
+
+(** * The conjunct walk *)
+
+(** OR makes the walk panic, and only OR. *)
+Theorem walk_panics_iff_or : forall sch p, walk sch p = None <-> has_or p = true.
+Proof. exact walk_none_iff. Qed.
+Print Assumptions walk_panics_iff_or.
+
+(** The stack machine visits the comparisons in the order [cmps] (right operand
+    of every AND first), whatever the shape of the tree. *)
+Theorem walk_order : forall sch p st, walk sch p = Some st ->
+  has_or p = false /\ ws_related st = cmps p /\ st = fold_left (visit sch) (cmps p) (winit sch).
+Proof. exact walk_order_lemma. Qed.
+Print Assumptions walk_order.
+
+(** * Ranges *)
+
+(** Full statement (false): every value satisfying the comparisons on an indexed
+    column lies inside the range handed to the index scan. *)
+Definition range_superset : Prop := forall sch p st c v,
+  has_or p = false -> lits_ok sch p -> walk sch p = Some st -> col_indexed sch c = true ->
+  v <> VNull -> val_ok (col_type sch c) v -> conj_on c p v ->
+  in_range (rmin (ws_rng st c)) (rmax (ws_rng st c)) v = true.
+
+Theorem range_superset_refuted : ~ range_superset.
+Proof. exact range_superset_refuted_lemma. Qed.
+Print Assumptions range_superset_refuted.
+
+(** It holds for the values not cut off by a bound that is still a sentinel. *)
+Theorem range_superset_partial : forall sch p st c v,
+  has_or p = false -> lits_ok sch p -> walk sch p = Some st -> col_indexed sch c = true ->
+  v <> VNull -> conj_on c p v ->
+  bounds_cover (rmin (ws_rng st c)) (rmax (ws_rng st c)) v ->
+  in_range (rmin (ws_rng st c)) (rmax (ws_rng st c)) v = true.
+Proof. exact range_superset_partial_lemma. Qed.
+Print Assumptions range_superset_partial.
+
+(** Integer columns: unconditionally. *)
+Theorem range_superset_int : forall sch p st c v,
+  has_or p = false -> lits_ok sch p -> walk sch p = Some st -> col_indexed sch c = true ->
+  col_type sch c = TInt -> v <> VNull -> val_ok TInt v -> conj_on c p v ->
+  in_range (rmin (ws_rng st c)) (rmax (ws_rng st c)) v = true.
+Proof. exact range_superset_int_lemma. Qed.
+Print Assumptions range_superset_int.
+
+(** When findBestScan attaches no Selection (range exact, both bounds inclusive,
+    touchOnly) the scanned interval is exactly the predicate. *)
+Theorem range_exact_when_not_rechecked : forall sch p st c e,
+  has_or p = false -> lits_ok sch p -> walk sch p = Some st -> col_indexed sch c = true ->
+  range_empty (ws_rng st c) = false ->
+  ws_inexact st c = false -> rmin_inc (ws_rng st c) = true -> rmax_inc (ws_rng st c) = true ->
+  scan_exp (ws_related st) = Some e -> touch_only e c = true ->
+  forall r, nth c r VNull <> VNull ->
+    in_range (rmin (ws_rng st c)) (rmax (ws_rng st c)) (nth c r VNull) = eval_pred r p.
+Proof. exact range_exact_lemma. Qed.
+Print Assumptions range_exact_when_not_rechecked.
+
+(** * Plans *)
+
+(** Full statement (false): every candidate plan returns the reference answer. *)
+Definition scan_plan_equiv : Prop := forall sch p cols t l pl,
+  has_or p = false -> lits_ok sch p -> table_ok sch t ->
+  candidates sch p cols = Some l -> In pl l ->
+  exists out, run_plan pl t = Some out /\ Permutation out (sel cols p t).
+
+Theorem scan_plan_equiv_refuted : ~ scan_plan_equiv.
+Proof. exact scan_plan_equiv_refuted_lemma. Qed.
+Print Assumptions scan_plan_equiv_refuted.
+
+(** For AND-trees of any shape, every candidate, all tables: with [sel_safe] (no
+    stored value / literal pair in [cv_bad]) and [plan_ok] (the scanned column
+    holds no NULL and nothing beyond a bound that is still a sentinel). *)
+Theorem scan_plan_equiv_partial : forall sch p cols t l pl,
+  has_or p = false -> lits_ok sch p -> table_ok sch t -> sel_safe p t ->
+  candidates sch p cols = Some l -> In pl l -> plan_ok pl t ->
+  exists out, run_plan pl t = Some out /\ Permutation out (sel cols p t).
+Proof. exact scan_plan_equiv_partial_lemma. Qed.
+Print Assumptions scan_plan_equiv_partial.
+
+(** The sequential candidate exists and returns the rows in table order. *)
+Theorem candidates_exist : forall sch p cols, has_or p = false ->
+  exists st l, walk sch p = Some st /\ candidates sch p cols = Some l /\ In (seq_candidate st cols) l.
+Proof. exact candidates_exist_lemma. Qed.
+Print Assumptions candidates_exist.
+
+Theorem seq_plan_equiv : forall sch p cols t st,
+  has_or p = false -> lits_ok sch p -> table_ok sch t -> sel_safe p t ->
+  walk sch p = Some st ->
+  run_plan (seq_candidate st cols) t = Some (sel cols p t).
+Proof. exact seq_plan_equiv_lemma. Qed.
+Print Assumptions seq_plan_equiv.
+
+(** Whatever the cost model picks. *)
+Theorem chosen_plan_equiv : forall sch p cols t k pl,
+  has_or p = false -> lits_ok sch p -> table_ok sch t -> sel_safe p t ->
+  chosen sch p cols k = Some pl -> plan_ok pl t ->
+  exists out, run_plan pl t = Some out /\ Permutation out (sel cols p t).
+Proof. exact chosen_plan_equiv_lemma. Qed.
+Print Assumptions chosen_plan_equiv.
+
+(** Integer-only tables: the only side condition left is "no NULL in an indexed column". *)
+Theorem scan_plan_equiv_int : forall sch p cols t l pl,
+  all_int sch -> has_or p = false -> lits_ok sch p -> table_ok sch t -> indexed_nonnull sch t ->
+  candidates sch p cols = Some l -> In pl l ->
+  exists out, run_plan pl t = Some out /\ Permutation out (sel cols p t).
+Proof. exact scan_plan_equiv_int_lemma. Qed.
+Print Assumptions scan_plan_equiv_int.
+
+(** [plan_ok] from a condition on the table alone. *)
+Theorem plan_ok_when_in_window : forall sch p cols t l pl,
+  has_or p = false -> lits_ok sch p ->
+  (forall c, col_indexed sch c = true -> forall r, In r t ->
+     nth c r VNull <> VNull /\ window_ok (col_type sch c) (nth c r VNull)) ->
+  candidates sch p cols = Some l -> In pl l -> plan_ok pl t.
+Proof. exact plan_ok_of_window. Qed.
+Print Assumptions plan_ok_when_in_window.
+
+(** [sel_safe] can be decided on the statement and the table. *)
+Theorem sel_safe_decidable : forall p t, stmt_hits_bad p t = false -> sel_safe p t.
+Proof. exact stmt_hits_bad_false. Qed.
+Print Assumptions sel_safe_decidable.
+
+(** Predicates containing OR: sequential scan with the whole predicate. *)
+Theorem or_plan_equiv : forall sch p cols t,
+  lits_ok sch p -> table_ok sch t -> sel_safe p t ->
+  run_plan (or_plan p cols) t = Some (sel cols p t).
+Proof. exact or_plan_equiv_lemma. Qed.
+Print Assumptions or_plan_equiv.
+
+(** * The three ways [scan_plan_equiv] fails, each with every other hypothesis in place *)
+
+(** WHERE s < 'SamehadaDBInfMaxValue' returns 'T' ([sel_safe] fails). *)
+Theorem sentinel_literal_refuted :
+  let sch := [(TStr, true)] : schema in
+  let p := PCmp 0 OLt (VStr inf_max_str) in
+  let t := [[VStr str_T]] : table in
+  let pl := PProjection (PSelection PSeqScan p) [O] in
+  has_or p = false /\ lits_ok sch p /\ table_ok sch t /\
+  candidates sch p [O] = Some [pl] /\ plan_ok pl t /\
+  stmt_hits_bad p t = true /\
+  run_plan pl t = Some [[VStr str_T]] /\ sel [O] p t = [].
+Proof. exact sentinel_literal_refuted_lemma. Qed.
+Print Assumptions sentinel_literal_refuted.
+
+(** WHERE s >= 'A' through the index misses 'alice' ([plan_ok] fails: sentinel bound). *)
+Theorem sentinel_bound_refuted :
+  let sch := [(TStr, true)] : schema in
+  let p := PCmp 0 OGe (VStr str_A) in
+  let t := [[VStr str_alice]] : table in
+  let pl := PProjection (PSelection (PIndexRange 0 TStr (VStr str_A) (VStr inf_max_str)) p) [O] in
+  has_or p = false /\ lits_ok sch p /\ table_ok sch t /\ sel_safe p t /\
+  (exists l, candidates sch p [O] = Some l /\ In pl l) /\
+  run_plan pl t = Some [] /\ sel [O] p t = [[VStr str_alice]].
+Proof. exact sentinel_bound_refuted_lemma. Qed.
+Print Assumptions sentinel_bound_refuted.
+
+(** WHERE a = 0 through the index aborts when some row has a IS NULL ([plan_ok] fails: NULL). *)
+Theorem null_in_index_refuted :
+  let sch := [(TInt, true)] : schema in
+  let p := PCmp 0 OEq (VInt 0) in
+  let t := [[VNull]; [VInt 0]] : table in
+  let pl := PProjection (PIndexRange 0 TInt (VInt 0) (VInt 0)) [O] in
+  all_int sch /\ has_or p = false /\ lits_ok sch p /\ table_ok sch t /\
+  (exists l, candidates sch p [O] = Some l /\ In pl l) /\
+  run_plan pl t = None /\ sel [O] p t = [[VInt 0]].
+Proof. exact null_in_index_refuted_lemma. Qed.
+Print Assumptions null_in_index_refuted.
+
+(** * Non-vacuity: a concrete table, redundant / contradictory bounds *)
+
+(** The table and predicates [ex_*] are defined in Proofs/QueryProofs.v:
+    a>=3 AND a>=5 AND a<=10 ;  a=5 AND a=7 ;  a>=1 AND a<=5 AND a<>3 ;  a=5
+    on rows (a,b) = (7,70) (3,30) (5,50) (12,120) (4,40) (10,100) (1,10) (5,51) (9,90),
+    index on a only. *)
+Definition runs (p : pred) (cols : list nat) : option (list (option table)) :=
+  match candidates ex_sch p cols with
+  | Some l => Some (map (fun pl => run_plan pl ex_t) l)
+  | None => None
+  end.
+
+(** p1: the walk sees a<=10, a>=5, a>=3 and hands [3,10] to the index (the last
+    '>=' wins); the Selection restores the answer.  Both candidates agree with the
+    reference up to order. *)
+Example c06_nonvacuous_redundant :
+  candidates ex_sch ex_p1 [1; 0]%nat =
+    Some [PProjection (PSelection (PIndexRange 0 TInt (VInt 3) (VInt 10))
+                         (PAnd (PAnd (ex_a OLe 10) (ex_a OGe 5)) (ex_a OGe 3))) [1; 0]%nat;
+          PProjection (PSelection PSeqScan
+                         (PAnd (PAnd (ex_a OLe 10) (ex_a OGe 5)) (ex_a OGe 3))) [1; 0]%nat] /\
+  runs ex_p1 [1; 0]%nat =
+    Some [Some [[VInt 50; VInt 5]; [VInt 51; VInt 5]; [VInt 70; VInt 7]; [VInt 90; VInt 9]; [VInt 100; VInt 10]];
+          Some [[VInt 70; VInt 7]; [VInt 50; VInt 5]; [VInt 100; VInt 10]; [VInt 51; VInt 5]; [VInt 90; VInt 9]]] /\
+  sel [1; 0]%nat ex_p1 ex_t =
+    [[VInt 70; VInt 7]; [VInt 50; VInt 5]; [VInt 100; VInt 10]; [VInt 51; VInt 5]; [VInt 90; VInt 9]].
+Proof. vm_compute. repeat split; reflexivity. Qed.
+
+Example c06_nonvacuous_contradictory :
+  runs ex_p2 [1%nat] = Some [Some []; Some []] /\ sel [1%nat] ex_p2 ex_t = [].
+Proof. vm_compute. split; reflexivity. Qed.
+
+Example c06_nonvacuous_not_equal :
+  runs ex_p3 [1%nat] =
+    Some [Some [[VInt 10]; [VInt 40]; [VInt 50]; [VInt 51]];
+          Some [[VInt 50]; [VInt 40]; [VInt 10]; [VInt 51]]] /\
+  sel [1%nat] ex_p3 ex_t = [[VInt 50]; [VInt 40]; [VInt 10]; [VInt 51]].
+Proof. vm_compute. split; reflexivity. Qed.
+
+(** p4: the one shape for which no Selection is attached (bare index scan). *)
+Example c06_nonvacuous_bare_scan :
+  candidates ex_sch ex_p4 [1%nat] =
+    Some [PProjection (PIndexRange 0 TInt (VInt 5) (VInt 5)) [1%nat];
+          PProjection (PSelection PSeqScan (ex_a OEq 5)) [1%nat]] /\
+  runs ex_p4 [1%nat] = Some [Some [[VInt 50]; [VInt 51]]; Some [[VInt 50]; [VInt 51]]].
+Proof. vm_compute. split; reflexivity. Qed.
+
+(** The hypotheses of [scan_plan_equiv_int] hold for this table and these predicates. *)
+Example c06_nonvacuous_hyps :
+  all_int ex_sch /\ table_ok ex_sch ex_t /\ indexed_nonnull ex_sch ex_t /\
+  lits_ok ex_sch ex_p1 /\ lits_ok ex_sch ex_p2 /\ lits_ok ex_sch ex_p3 /\ lits_ok ex_sch ex_p4 /\
+  has_or ex_p1 = false /\ has_or ex_p2 = false /\ has_or ex_p3 = false /\ has_or ex_p4 = false.
+Proof. exact ex_hyps_lemma. Qed.
